@@ -528,11 +528,11 @@ for _pid, _what in W2_WHAT.items():
     PROPS[_pid]["technique"] = PROPS[_pid]["technique"] + "; Windows sources: exhaustive single-fault sweep + rapidcheck-sampled cases on an in-memory Win32 simulator"
     PROPS[_pid].setdefault("assumptions", []).append("engine W2 models one child per case and documented Win32 semantics (duplicate handles in a handle list and non-inheritable listed handles make CreateProcessW fail)")
 W2_ESSENTIAL = {
-    "C01": ["child-exits", "terminated", "killed", "child-closed-its-exit-handle", "child-stopped-by-sigstop"],
+    "C01": ["child-exits", "terminated", "killed", "child-closed-its-exit-handle", "child-stopped-by-sigstop", "child-collected-by-someone-else"],
     "C02": ["output-exceeds-socket-buffer", "child-gone-before-first-read", "startup-input", "engine:fork-mode"],
     "C04": ["alloc-fault", "api-fault", "fault-fired", "restarted-after-failure"],
     "C05": ["alloc-fault", "api-fault", "fault-fired", "destroy-while-running"],
-    "C06": ["terminated", "killed", "destroy-while-running"],
+    "C06": ["terminated", "killed", "destroy-while-running", "calls-on-failed-handle"],
     "C03": ["start-succeeded", "fork-mode"],
     "C08": ["polled-weeks-after-start", "interrupted-by-signal"],
     "C18": ["random-long"],
@@ -542,7 +542,7 @@ W2_ESSENTIAL = {
     "C09": ["poll-after-eof", "output-piped"],
     "C17": ["blocking-probe", "stdin-flood", "startup-input-beyond-capacity", "descendant-holds-stream:blocking", "small-pipes"],
     "C10": ["output-piped", "start-succeeded"],
-    "C11": ["start-succeeded", "restarted-after-failure"],
+    "C11": ["start-succeeded", "restarted-after-failure", "child-cannot-read-limit:start-refused"],
 }
 for _pid, _cls in W2_ESSENTIAL.items():
     PROPS[_pid]["essential_optional"] = list(_cls) + ["win-alloc-fault", "win-api-fault"]
